@@ -1,6 +1,7 @@
 #!/usr/bin/env python3
 
 import logging
+import os
 import re
 import sys
 from functools import cached_property
@@ -133,9 +134,11 @@ class FastaIndex:
             raise IndexUsageError(msg)
         if self.fai_file.exists():
             logging.warning(f"Overwriting FAI index file '{self.fai_file}'")
-        with self.fai_file.open("w") as idx_fh:
+        tmp_file = self.tmp_file_for(self.fai_file)
+        with tmp_file.open("w") as idx_fh:
             for name, info in idx_dict.items():
                 idx_fh.write(info.fai_row(name))
+        tmp_file.replace(self.fai_file)
 
     def load_assembly(self):
         if self.assembly:
@@ -150,8 +153,20 @@ class FastaIndex:
             raise IndexUsageError(msg)
         if self.agp_file.exists():
             logging.warning(f"Overwriting AGP assembly file '{self.agp_file}'")
-        with self.agp_file.open("w") as agp_fh:
+        tmp_file = self.tmp_file_for(self.agp_file)
+        with tmp_file.open("w") as agp_fh:
             format_agp(asm, agp_fh)
+        tmp_file.replace(self.agp_file)
+
+    @staticmethod
+    def tmp_file_for(file: Path) -> Path:
+        """
+        Index files are written in full to a temporary file, unique to this
+        process, next to `file` and then renamed over it, so that an
+        interrupted run or another process reading the index never sees a
+        partially written file under the real name.
+        """
+        return file.with_name(f"{file.name}.{os.getpid()}.tmp")
 
     def run_indexing(self):
         idx_dict, assembly = index_fasta_file(self.fasta_file, self.buffer_size)
